@@ -12,7 +12,7 @@ ID = 'C08'
 RULE = ('tables from tables.rand_spec (dims 1..4, layout recipes incl. unsorted indices / stored zeros / CSC) x '
         '{filter by id collection (list/tuple/set/array, any order, invert, unknown ids), filter by predicate from a finite '
         'family over values/id/metadata (arguments recorded), remove_empty on sample/observation/whole, head(n,m)} x axis x inplace; '
-        'in 35 % of the cases after a HISTORY of one or two earlier id filters (same or other axis, in place or not); metadata kinds incl. entries whose values are all falsy; every call also observed for: result is / is not the receiver as inplace says, receiver of a non-in-place call unchanged; '
+        'a fixed sweep of every caller-supplied / left-behind layout x axis x value-reading predicate without normalising steps; in 35 % of the random cases after a HISTORY of one or two earlier id filters (same or other axis, in place or not); metadata kinds incl. entries whose values are all falsy; every call also observed for: result is / is not the receiver as inplace says, receiver of a non-in-place call unchanged; '
         'plus the arrays the compiled kernel actually received replayed through the model of its rebuild loop; '
         'thorough adds every matrix over {0,1,2} of shape 1x2..3x2 and every 27th 3x3 x every subset x invert x axis x inplace, remove_empty, head; '
         'non-trivial = table with >= 2 ids on the filtered axis and a selection that is neither empty nor everything; distinct by case hash')
@@ -402,8 +402,35 @@ def exhaustive_small():
                         yield {'kind': 'head', 'spec': spec, 'n': hn, 'm': hm}
 
 
+def layout_sweep(rng):
+    """every layout the caller can hand over or an earlier call can leave behind, WITHOUT further steps that
+    would normalise it, x both axes x every value-reading predicate and one id filter: the kernel must see
+    the true vectors whatever order / format the stored entries have"""
+    mats = [[[1.0, 2.0, 3.0, 0.0], [0.0, 5.0, 0.0, 4.0], [6.0, 0.0, 7.0, 8.0]],
+            [[2.0, 0.0, 1.0], [0.0, 0.0, 3.0], [1.0, 4.0, 2.0], [0.0, 2.0, 0.0]]]
+    for mat in mats:
+        r, c = len(mat), len(mat[0])
+        base = {'oids': ['o%d' % i for i in range(r)], 'sids': ['s%d' % j for j in range(c)], 'mat': mat,
+                'omd': None, 'smd': None, 'type': None}
+        layouts = [[k] for k in ('csr_unsorted', 'csr_zero', 'csc', 'coo', 'lists')]
+        layouts += [['csr', ['via_sort_samp', list(range(c))[::-1]]], ['csc', ['via_sort_obs', list(range(r))[::-1]]],
+                    ['csr', 'colaccess'], ['csc', 'rowaccess']]
+        for lay in layouts:
+            spec = dict(base, layout=lay)
+            for axis in ('observation', 'sample'):
+                for pred in ('sum_gt1', 'nnz_ge2', 'first_nz', 'last_pos', 'has_neg_or_big'):
+                    yield {'kind': 'pred', 'spec': spec, 'axis': axis, 'pred': pred, 'invert': False,
+                           'inplace': rng.random() < 0.5, 'kernel': True}
+                ids = spec['oids'] if axis == 'observation' else spec['sids']
+                yield {'kind': 'ids', 'spec': spec, 'axis': axis, 'keep': ids[1:][::-1], 'invert': False,
+                       'inplace': rng.random() < 0.5, 'ctype': 'list'}
+                yield {'kind': 'remove_empty', 'spec': spec, 'axis': axis, 'inplace': False}
+
+
 def gen(rng, tier):
     n = 500 if tier == 'quick' else 5000
+    for c in layout_sweep(rng):
+        yield c
     for _ in range(n):
         yield gen_case(rng)
     if tier == 'thorough':
